@@ -71,9 +71,12 @@ ASSUMPTIONS = [
     'never hangs = within min(cap, max(5 s, 1000 x time of the complete listing)), cap 20 s quick / 120 s '
     'thorough; overruns that do not reproduce in a pristine process are counted, not reported',
 ]
-BUDGET = {'quick': {'cases': 1100, 'shards': 16, 'seconds': 150, 'shrink_s': 40},
-          'thorough': {'cases': 14000, 'shards': 16, 'seconds': 1500, 'shrink_s': 60}}
-FLOORS = {}
+BUDGET = {'quick': {'cases': 1100, 'shards': 16, 'seconds': 240, 'shrink_s': 40},
+          'thorough': {'cases': 8000, 'shards': 16, 'seconds': 2400, 'shrink_s': 60}}
+# fractions of the generated cases (about half of what the quick tier measures)
+FLOORS = {'gen:synth': 0.25, 'gen:sample': 0.08, 'gen:history': 0.10, 'synth:multi-edition': 0.06,
+          'synth:reference-parses': 0.25, 'synth:foreign-head': 0.05, 'synth:responses-recombined': 0.08,
+          'history:mixed-listings': 0.08}
 
 _STATE = {'tier': 'quick', 'pristine': None, 'refs': {}, 'fresh': {}, 'fuzz': None}
 
@@ -238,9 +241,9 @@ class _Judge:
                           if p not in skip and got.get(p) != want[1].get(p))
             if diff:
                 kinds = sorted({_strip_index(p) for p in diff})
-                self.fail('edition_differs', f'C11/edition_differs/{kinds[0]}/{where}',
+                self.fail('edition_differs', f'C11/edition_differs/{kinds[0]}',
                           f'{origin}: edition {bnum} differs from the same edition of the complete listing '
-                          f'in {diff[:6]} (cut line class: {cls})', offset)
+                          f'in {diff[:6]} ({where}; cut line class: {cls})', offset)
         return good
 
     def same(self, here, fresh, offset, cls):
@@ -285,7 +288,7 @@ class _Judge:
         key = (self.lid, offset, None if which is None else tuple(which))
         memo = _STATE['fresh']
         if key not in memo:
-            if len(memo) > 20000:
+            if len(memo) > 4000:
                 memo.clear()
             ans = _pristine().one(self.data[:offset], which, self.budget)
             memo[key] = None if ans.get('timeout') else ans['obs']
@@ -303,7 +306,7 @@ class _Judge:
         for offset in offsets:
             cls, partial = self.classify(offset)
             path = work.put(self.data, offset)
-            before = set(cache)
+            before = set(cache) if _STATE['fuzz'] is None else None
             obs, _secs = T.observe_guarded(path, self.budget, None, cache)
             self.out.evals += 1
             if obs is None:
@@ -316,8 +319,8 @@ class _Judge:
             for res in obs['eds'].values():
                 self.label('parse:' + _klass(res))
             okay = self.admissible(obs, offset, cls, partial, 'this process')
-            new = [key for key in cache if key not in before]
-            if new and okay and obs['batches'] and _STATE['fuzz'] is None:
+            new = [key for key in cache if key not in before] if before is not None else []
+            if new and okay and obs['batches']:
                 # positions of the editions that were really parsed at this offset
                 which = [pos for pos, bnum in enumerate(obs['batches'])
                          if any(cache[key] is obs['eds'].get(bnum) for key in new)]
@@ -337,10 +340,10 @@ class _Judge:
     def finish(self):
         for lab, num in sorted(self.labels.items()):
             self.out.labels.extend([lab] * num)
-        self.out.extra_keys.extend(self.nt_keys)
-        if self.nt_keys:
+        if self.nt_keys:      # the first key is the key of the case (so that it can be shown as a sample)
             self.out.nontrivial = True
             self.out.key = self.nt_keys[0]
+            self.out.extra_keys.extend(self.nt_keys[1:])
 
 
 # --------------------------------------------------------------------------
